@@ -8,10 +8,10 @@ export CARGO_NET_OFFLINE=true
 git diff --quiet -- src && git apply $out/patch.diff
 [ -f tests/seed_demo.rs ] || { mkdir -p tests; cp $out/seed_demo.rs tests/seed_demo.rs; }
 t1=$(cargo test --offline --lib 2>&1 | grep -E '^test result' | head -1)
-d1=$(cargo test --offline --test seed_demo 2>&1 | grep -E '^test result' | head -1)
+d1=$(cargo test --offline $SEED_FEATURES --test seed_demo 2>&1 | grep -E '^test result' | head -1)
 git diff -- src > /tmp/seed/$id.applied.diff
 git checkout -- src
-d2=$(cargo test --offline --test seed_demo 2>&1 | grep -E '^test result' | head -1)
+d2=$(cargo test --offline $SEED_FEATURES --test seed_demo 2>&1 | grep -E '^test result' | head -1)
 git apply /tmp/seed/$id.applied.diff
 echo "$id | with-change lib: $t1 | with-change demo: $d1 | without-change demo: $d2"
 python3 - "$id" "$t1" "$d1" "$d2" <<'PY'
